@@ -270,6 +270,38 @@ func runScenario(s scen, w *bufio.Writer) {
 	w.Flush()
 }
 
+// stressChild: many plain calls of the real MapParallel (cheap f, no instrumentation, many workers): every
+// element processed exactly once, in place. A lost or duplicated element under a rare interleaving shows here.
+func stressChild(calls, length, n int) {
+	a := make([]int, length)
+	for i := range a {
+		a[i] = i
+	}
+	f := func(x int) int { return 3*x + 1 }
+	for c := 0; c < calls; c++ {
+		var res []int
+		done := make(chan struct{})
+		go func() { res = verifhooks.MapParallel(a, f, n); close(done) }()
+		select {
+		case <-done:
+		case <-time.After(240 * time.Second):
+			fmt.Printf("stress deadlock call=%d\n", c)
+			os.Exit(3)
+		}
+		if len(res) != length {
+			fmt.Printf("stress bad call=%d len=%d want=%d\n", c, len(res), length)
+			return
+		}
+		for i, v := range res {
+			if v != 3*i+1 {
+				fmt.Printf("stress bad call=%d index=%d got=%d want=%d\n", c, i, v, 3*i+1)
+				return
+			}
+		}
+	}
+	fmt.Printf("stress ok calls=%d\n", calls)
+}
+
 func m2Child(file string) {
 	b, err := os.ReadFile(file)
 	if err != nil {
@@ -332,6 +364,22 @@ func runM2(rep *lib.Report) {
 		for _, n := range []int{1, 3, 16, 64} {
 			add(l, n, patGosched)
 			add(l, n, patHoldFirst)
+		}
+	}
+	// large inputs, len 65..5000 x workers -1..8 (an implementation that partitions the input into batches
+	// is only exercised when len is large compared with the number of workers, and not a multiple of anything)
+	for n := -1; n <= 8; n++ {
+		e := effWorkers(n)
+		ls := []int{64*e + 1, 65 + r.Intn(1400), 1500 + r.Intn(3500)}
+		if lib.Thorough() {
+			ls = append(ls, 64*e+33, 128*e+7, 65+r.Intn(4900), 65+r.Intn(4900), 4999, 5000)
+		}
+		for k, l := range ls {
+			if k%2 == 0 {
+				add(l, n, patNone)
+			} else {
+				add(l, n, patGosched)
+			}
 		}
 	}
 	work := lib.WorkDir("C20", "m2")
@@ -470,9 +518,40 @@ func runM2(rep *lib.Report) {
 			rep.Sample(map[string]any{"scenario": key, "out_of_order_completions": o, "oracle": v, "max_in_flight": m["maxc"]})
 		}
 	}
+	// stress: 2000 jobs, 16 workers, many calls
+	{
+		calls := 2500
+		if lib.Thorough() {
+			calls = 12000
+		}
+		for _, cfg := range [][2]int{{2000, 16}, {257, 5}} {
+			nc := calls
+			if cfg[0] < 2000 {
+				nc = calls / 2
+			}
+			c := exec.Command(self, "stress", strconv.Itoa(nc), strconv.Itoa(cfg[0]), strconv.Itoa(cfg[1]))
+			out, err := c.CombinedOutput()
+			o := strings.TrimSpace(string(out))
+			key := fmt.Sprintf("stress-len=%d,n=%d", cfg[0], cfg[1])
+			rep.Case(key)
+			rep.Count("stress-calls/" + key)
+			if !strings.HasPrefix(lastLine(o), "stress ok") {
+				rep.Fail("m2-"+key, fmt.Sprintf("MapParallel(len=%d, numRoutines=%d) repeated %d times: %s (%v)", cfg[0], cfg[1], nc, lastLine(o), err),
+					[]byte(fmt.Sprintf("replay: <driver> stress %d %d %d   (a[i]=i, f(x)=3x+1; every call must return [1,4,7,…])\n%s\n", nc, cfg[0], cfg[1], tail(o, 4000))), false)
+			}
+		}
+		rep.Extra["stress_calls"] = calls
+	}
 	rep.Extra["m2_scenarios"] = len(scens)
 	rep.Extra["m2_traces_accepted_by_lts"] = accepted
 	rep.Extra["m2_out_of_order_completions"] = oooTotal
+}
+
+func lastLine(s string) string {
+	if i := strings.LastIndexByte(s, '\n'); i >= 0 {
+		return s[i+1:]
+	}
+	return s
 }
 
 func tail(s string, n int) string {
@@ -541,7 +620,27 @@ func runRace(rep *lib.Report, joinCode int) {
 	}
 	rep.Extra["race_build_s"] = time.Since(t0).Seconds()
 
-	progs := []string{"dir:" + pdir}
+	// a program in which many functions read and write the same globals (the summary workers then
+	// register read / write locations on the same GlobalNode concurrently)
+	gdir := filepath.Join(work, "sharedglobal")
+	os.MkdirAll(gdir, 0o755)
+	{
+		var b strings.Builder
+		b.WriteString("package main\n\nfunc source_1() string { return \"t\" }\nfunc sink_1(x string)  {}\n\nvar G string\nvar H string\nvar K []string\n\n")
+		nf := 160
+		for i := 0; i < nf; i++ {
+			fmt.Fprintf(&b, "func f%d(s string) string {\n\tH = s + G\n\tK = append(K, G)\n\tif len(K) > %d {\n\t\treturn H\n\t}\n\treturn G + K[0]\n}\n\n", i, i)
+		}
+		b.WriteString("func main() {\n\tG = source_1()\n\tx := \"\"\n")
+		for i := 0; i < nf; i++ {
+			fmt.Fprintf(&b, "\tx = f%d(x)\n", i)
+		}
+		b.WriteString("\tsink_1(x)\n\tsink_1(H)\n}\n")
+		os.WriteFile(filepath.Join(gdir, "main.go"), []byte(b.String()), 0o644)
+		os.WriteFile(filepath.Join(gdir, "go.mod"), []byte("module vprog\n\ngo 1.22\n"), 0o644)
+		os.WriteFile(filepath.Join(gdir, "config.yaml"), []byte(progConfig), 0o644)
+	}
+	progs := []string{"dir:" + pdir, "dir:" + gdir}
 	reps := "1"
 	masks := "0,1,7,9,15"
 	if lib.Thorough() {
@@ -611,7 +710,9 @@ func runRace(rep *lib.Report, joinCode int) {
 		}
 	}
 	for _, e := range childErr {
-		if strings.Contains(e, "fatal error: concurrent map") {
+		if strings.Contains(e, "all goroutines are asleep") {
+			rep.Fail("analysis-deadlock", "the real analysis deadlocked (Go runtime: all goroutines are asleep): "+strings.SplitN(e, "\n", 2)[0], []byte(e), false)
+		} else if strings.Contains(e, "fatal error: concurrent map") {
 			key := "race-fatal-concurrent-map"
 			if strings.Contains(e, "BuildGraph") {
 				key = f6Key
@@ -745,6 +846,13 @@ func raceKey(blk string) string {
 func main() {
 	if len(os.Args) >= 3 && os.Args[1] == "m2child" {
 		m2Child(os.Args[2])
+		return
+	}
+	if len(os.Args) >= 5 && os.Args[1] == "stress" {
+		c, _ := strconv.Atoi(os.Args[2])
+		l, _ := strconv.Atoi(os.Args[3])
+		n, _ := strconv.Atoi(os.Args[4])
+		stressChild(c, l, n)
 		return
 	}
 	rep := lib.NewReport("C20")
